@@ -437,14 +437,26 @@ func (c *c10ctx) ruleR2() {
 			}
 			good := false
 			if okv != nil {
+				// the blocks entered when ok is false: `if ok` (false successor) or `if !ok` / `case !ok` (true successor)
+				var closedArms []*ssa.BasicBlock
 				for _, ref := range *okv.Referrers() {
 					if iff, isIf := ref.(*ssa.If); isIf {
-						// false successor (not ok) must reach a return without passing the select again
-						hits := reachFromBlock(iff.Block().Succs[1], func(x ssa.Instruction) bool { return x == ssa.Instruction(sel) }, isReturn)
-						back := reachFromBlock(iff.Block().Succs[1], isReturn, func(x ssa.Instruction) bool { return x == ssa.Instruction(sel) })
-						if len(hits) > 0 && len(back) == 0 {
-							good = true
+						closedArms = append(closedArms, iff.Block().Succs[1])
+					}
+					if not, isNot := ref.(*ssa.UnOp); isNot && not.Op == token.NOT {
+						for _, r2 := range *not.Referrers() {
+							if iff, isIf := r2.(*ssa.If); isIf {
+								closedArms = append(closedArms, iff.Block().Succs[0])
+							}
 						}
+					}
+				}
+				for _, ca := range closedArms {
+					// the closed case must reach a return without passing the select again
+					hits := reachFromBlock(ca, func(x ssa.Instruction) bool { return x == ssa.Instruction(sel) }, isReturn)
+					back := reachFromBlock(ca, isReturn, func(x ssa.Instruction) bool { return x == ssa.Instruction(sel) })
+					if len(hits) > 0 && len(back) == 0 {
+						good = true
 					}
 				}
 			}
